@@ -554,8 +554,20 @@ def check_c02(prog, rep, tier, cfg):
         rep.check(ident_ok, R, "Identifier=>(keep,1)", "an identifier is no longer followed by exactly one forced space")
         ose_b = prog.body(TS + "one_space_either_side")
         if ose_b is not None:
-            cs = [(c.callee.split("::")[-1], [a.get("int") for a in c.args if a["k"] == "const"]) for c in ose_b.calls() if (c.callee or "").startswith(TS)]
-            rep.check(sorted(cs) == [("spaces_after", [1]), ("spaces_before", [1])], R, "one_space_either_side=(before 1, after 1)", "one_space_either_side computes %s" % cs, instance={"calls": cs})
+            # on every path the pair is (spaces_before(<previous kind>, 1), spaces_after(<next kind>, 1)), whatever helpers it is computed through
+            try:
+                tb_o = Table(prog, ose_b, inline=2, opaque=("spaces_before", "spaces_after"))
+                pairs = []
+                for cons, res in tb_o.rows:
+                    if res.kind == "agg" and len(res.a[2]) == 2:
+                        pairs.append((render(res.a[2][0]), render(res.a[2][1])))
+                    else:
+                        pairs.append((render(res), ""))
+                good = bool(pairs) and all(re.match(r"^call:spaces_before\(.*,1\)$", p0) and re.match(r"^call:spaces_after\(.*,1\)$", p1) for p0, p1 in pairs)
+                cs = sorted({(p0.split("(")[0], p1.split("(")[0]) for p0, p1 in pairs})
+            except TooComplex as e:
+                good, cs = False, [str(e)]
+            rep.check(good, R, "one_space_either_side=(before 1, after 1)", "one_space_either_side computes %s" % cs, instance={"calls": [list(x) if isinstance(x, tuple) else x for x in cs]})
 
 
 PROPERTIES = {
